@@ -535,6 +535,7 @@ type LoopSpec struct {
 type AssertHint struct {
 	Snippet string
 	C       *Clause
+	Use     *UseLemma // instead of a checked assertion: a proved lemma instantiated after the anchored statement
 }
 
 type CallSpec struct {
@@ -640,6 +641,7 @@ func (ss *SpecSet) ParseSpecLines(lines []SpecLine, pkgPath string, keyPrefix st
 	type item struct {
 		kw, rest string
 		src      SpecLine
+		facet    string
 	}
 	var items []item
 	skipping := false // inside a clause of an inactive facet (its continuation lines are dropped too)
@@ -653,12 +655,20 @@ func (ss *SpecSet) ParseSpecLines(lines []SpecLine, pkgPath string, keyPrefix st
 		}
 		// "@facet clause...": the clause belongs to a facet and exists only when that facet is active (ActiveFacets)
 		facetOff := false
+		facet := ""
 		if strings.HasPrefix(t, "@") {
 			i := strings.IndexAny(t, " \t")
 			if i < 0 {
 				return fmt.Errorf("%s:%d: facet without clause", l.File, l.Line)
 			}
-			facetOff = !ActiveFacets[t[1:i]]
+			facet = t[1:i]
+			if strings.HasPrefix(facet, "!") {
+				// "@!name clause": part of the contract unless the facet is active (hypotheses irrelevant to that facet)
+				facetOff = ActiveFacets[facet[1:]]
+				facet = ""
+			} else {
+				facetOff = !ActiveFacets[facet]
+			}
 			t = strings.TrimSpace(t[i+1:])
 		}
 		kw := t
@@ -671,7 +681,7 @@ func (ss *SpecSet) ParseSpecLines(lines []SpecLine, pkgPath string, keyPrefix st
 			if skipping {
 				continue
 			}
-			items = append(items, item{kw, rest, l})
+			items = append(items, item{kw, rest, l, facet})
 		} else {
 			if skipping {
 				continue
@@ -685,6 +695,7 @@ func (ss *SpecSet) ParseSpecLines(lines []SpecLine, pkgPath string, keyPrefix st
 	var cur *FuncSpec
 	var curLoop *LoopSpec
 	var curCall *CallSpec
+	curFacet := ""
 	mk := func(kind, text string, src SpecLine) (*Clause, error) {
 		name := ""
 		tt := strings.TrimSpace(text)
@@ -698,9 +709,17 @@ func (ss *SpecSet) ParseSpecLines(lines []SpecLine, pkgPath string, keyPrefix st
 		if err != nil {
 			return nil, fmt.Errorf("%s:%d: %v", src.File, src.Line, err)
 		}
+		if curFacet != "" {
+			// obligations of a facet clause carry the facet in their name (checks select them by "*wf/*")
+			if name == "" {
+				name = normSpace(tt)
+			}
+			name = curFacet + "/" + name
+		}
 		return &Clause{Kind: kind, Text: tt, X: x, Name: name, Src: src}, nil
 	}
 	for _, it := range items {
+		curFacet = it.facet
 		switch it.kw {
 		case "sort":
 			ss.Sorts = append(ss.Sorts, it.rest)
@@ -847,7 +866,16 @@ func (ss *SpecSet) ParseSpecLines(lines []SpecLine, pkgPath string, keyPrefix st
 				}
 				cur.Induction = &InductionSpec{Var: strings.TrimSpace(f[0]), Measure: mx, Src: it.src}
 			case "uselemma":
-				// uselemma name(arg, _, ...)
+				// uselemma ["source snippet"] name(arg, _, ...)
+				snippet := ""
+				if r := strings.TrimSpace(it.rest); strings.HasPrefix(r, "\"") {
+					q := strings.Index(r[1:], "\"")
+					if q < 0 {
+						return fmt.Errorf("%s:%d: unterminated snippet", it.src.File, it.src.Line)
+					}
+					snippet = r[1 : 1+q]
+					it.rest = strings.TrimSpace(r[q+2:])
+				}
 				i := strings.Index(it.rest, "(")
 				j := matchParen(it.rest, i)
 				if i < 0 || j < 0 {
@@ -870,7 +898,11 @@ func (ss *SpecSet) ParseSpecLines(lines []SpecLine, pkgPath string, keyPrefix st
 					}
 					ul.Args = append(ul.Args, ax)
 				}
-				cur.UseLemmas = append(cur.UseLemmas, ul)
+				if snippet != "" {
+					cur.Asserts = append(cur.Asserts, &AssertHint{Snippet: snippet, Use: ul, C: &Clause{Kind: "uselemma", Text: it.rest, Src: it.src}})
+				} else {
+					cur.UseLemmas = append(cur.UseLemmas, ul)
+				}
 			case "inline":
 				cur.Inline = true
 			case "noinline":
